@@ -1,6 +1,7 @@
 import RagcModel.Model.Segment
 import Driver.Proto
-namespace Driver
+namespace Driver.HSegment
+open Driver
 open Ragc.Segment
 
 def segToString (s : Segment) : String :=
@@ -30,4 +31,8 @@ def handleSegment : List String → Option String
     | _ => none
   | _ => none
 
+end Driver.HSegment
+
+namespace Driver
+export HSegment (handleSegment)
 end Driver
